@@ -329,7 +329,9 @@ def judgeSuccess (inp : Input) (s : StreamTr) (result : String) : Option String 
     let expect := names.map fun n =>
       if inp.cfg.onlyServices then ({ name := n, methods := [] } : Service) else contractOf regFiles n
     -- "an inconsistent or incomplete descriptor set produces an error report, never a partial description"
-    if svcsS.any (· == '?') then
+    if svcsS.any (· == '%') then
+      some "message-type-not-the-delivered-registry's: Method.Input/Output builds a descriptor that is not the one the delivered FileResolver has under that name"
+    else if svcsS.any (· == '?') then
       some "partial-description: a method's input/output type is a placeholder (defined in no delivered file)"
     else if !inp.cfg.onlyServices && !wfFilesB regFiles then
       some s!"partial-description: delivered although the descriptor set is inconsistent ({inconsistency regFiles})"
@@ -632,12 +634,70 @@ def handleNf (inF outF : List String) : String :=
     let br := (if model == "err" then "nf-rej-" else "nf-acc-") ++ nfBranch xs
     if impl == model then "OK" ++ (if xs.length ≥ 2 then " nt" else "") ++ s!" b={br}"
     else if impl.startsWith "PANIC" then "VIOL panic"
+    else if impl.any (· == '%') then
+      "VIOL message-type-not-the-delivered-registry's: Method.Input/Output builds a descriptor that is not the one the delivered FileResolver has under that name"
     else if impl.startsWith "ok:" && model.startsWith "ok:" then
       s!"VIOL the delivered contract is not the descriptor set's: model={model}"
     else s!"DIFF model={model}"
   | _ => "BAD nf output"
 
+/-! ### op `hist`: a history of resolutions in which message definitions change under a constant full name
+
+  input :  hist pkg=<package> S=<target>|<fields of pkg.Item>|<fields of pkg.Reply> …       fields = name:kind,…
+  output:  per step  ok:<built Item>/<registry Item>;<built Reply>/<registry Reply> | err -/
+
+def parseFields (s : String) : Fields :=
+  (splitL "," (if s == "-" then "" else s)).map fun f =>
+    let (n, k) := splitFirst ":" f
+    (tok n, if k == "i" then 0 else if k == "s" then 1 else 2)
+
+def showFields (f : Fields) : String :=
+  if f.isEmpty then "-" else
+  ",".intercalate (f.map fun (n, k) => untok n ++ ":" ++ (if k = 0 then "i" else if k = 1 then "s" else "b"))
+
+def histStep (pkg : Name) (item reply : Fields) : HStep :=
+  let it := pkg ++ [46] ++ ascii "Item"
+  let rp := pkg ++ [46] ++ ascii "Reply"
+  let sv := pkg ++ [46] ++ ascii "Svc"
+  let m : DMethod :=
+    { name := ascii "Get", input := it, output := rp, clientStreaming := false, serverStreaming := false, http := none }
+  let f : DFile :=
+    { name := pkg ++ ascii ".proto", deps := [], messages := [it, rp], services := [{ name := sv, methods := [m] }] }
+  let x : XFile :=
+    { file := f, pkg := pkg, syn := sProto3, edition := 0, pub := [], weak := [], required := [] }
+  { files := [x], defs := [(it, item), (rp, reply)], wanted := [sv] }
+
+def showHistStep : Except Err (List (Name × List TypedMethod)) → String
+  | .ok [(_, [m])] =>
+    let sh := fun (o : Option Fields) => match o with | some f => showFields f | none => "-none-"
+    s!"ok:{sh m.inputDef}/{sh m.inputDef};{sh m.outputDef}/{sh m.outputDef}"
+  | _ => "err"
+
+def handleHist (inF outF : List String) : String :=
+  let pkg := ((inF.find? (·.startsWith "pkg=")).map fun f => tok (f.drop 4).toString).getD []
+  let steps := inF.filterMap fun f =>
+    if f.startsWith "S=" then
+      match (f.drop 2).toString.splitOn "|" with
+      | [_, a, b] => some (histStep pkg (parseFields a) (parseFields b))
+      | _ => none
+    else none
+  let model := (deliverHistory steps).map showHistStep
+  if model.length ≠ outF.length then (if outF.head? == some "PANIC" then "VIOL panic" else "BAD hist output") else
+  let rec go (ps : List (String × String)) (k : Nat) : String :=
+    match ps with
+    | [] => "OK" ++ (if steps.length ≥ 2 then " nt" else "") ++ " b=hist"
+    | (m, o) :: rest =>
+      if m == o then go rest (k + 1)
+      else
+        -- built/registry;built/registry : a built descriptor that is not the registry's is the violation
+        let sides := ((o.drop 3).toString.splitOn ";").map fun sd => sd.splitOn "/"
+        if o.startsWith "ok:" && sides.any (fun p => match p with | [b, r] => b ≠ r | _ => false) then
+          s!"VIOL message-type-not-the-delivered-registry's: step {k} delivered {o}, this resolution's descriptors are {m}"
+        else s!"DIFF model={m} [step {k}]"
+  go (model.zip outF) 0
+
 def handle : Handler := fun inF outF =>
+  if inF.head? == some "hist" then handleHist inF outF else
   if inF.head? == some "pipe" then handlePipe inF outF else
   if inF.head? == some "nf" then handleNf inF outF else
   match parseInput inF with
